@@ -306,6 +306,21 @@ def m_ceil(ctx, args, kw):
     return mk(z3.ToReal(-z3.ToInt(-x.t)), "real")
 
 
+@model(np.round, np.around, np.rint)
+def m_round(ctx, args, kw):
+    """round half to even, no decimals: n with |x - n| <= 1/2, and n even on a tie"""
+    x = args[0]
+    if not isinstance(x, Sym) or len(args) > 1 or kw:
+        return NotImplemented
+    if x.k == "int":
+        return x
+    n = ctx.fresh("int", "round")
+    d = x.t - z3.ToReal(n.t)
+    ctx.assume(z3.And(d <= z3.RealVal("1/2"), d >= z3.RealVal("-1/2"),
+                      z3.Implies(z3.Or(d == z3.RealVal("1/2"), d == z3.RealVal("-1/2")), n.t % 2 == 0)))
+    return mk(z3.ToReal(n.t), "real")
+
+
 @model(np.floor, math.floor)
 def m_floor(ctx, args, kw):
     x = args[0]
